@@ -9,7 +9,8 @@ from .c13 import render
 PROP = "C14"
 V, I, S = A.Var, A.Int, A.Str
 
-ROUTE_OPS = ["var", "arg", "list", "list_destructure", "for_list", "ret", "assign", "overwrite", "overwrite_elem", "dot0", "idx0", "dot1", "idx1", "nested1", "obj_lit"]
+ROUTE_OPS = ["var", "arg", "list", "list_destructure", "for_list", "ret", "assign", "overwrite", "overwrite_elem", "dot0", "idx0", "dot1", "idx1", "nested1", "obj_lit",
+             "list_spread", "arg_spread", "rest_param", "concat", "slice_copy", "collect"]
 
 
 def make_probe(desc, k):
@@ -154,6 +155,19 @@ def make_probe(desc, k):
                 stmts.append(A.Declare(V(nv), A.call(ident, prev)))
             elif op == "list":
                 stmts.append(A.Declare(V(nv), A.Index(A.lst(I(0), prev), I(1))))
+            # a list that holds the value is copied item by item: the items are the same values, access path included
+            elif op == "list_spread":
+                stmts.append(A.Declare(V(nv), A.Index(A.ListE([(I(0), False), (A.lst(prev), True)], False), I(1))))
+            elif op == "arg_spread":
+                stmts.append(A.Declare(V(nv), A.Call(V(ident), [(A.lst(prev), True)])))
+            elif op == "rest_param":
+                stmts += [A.FuncStmt("rp%d_%d" % (k, n), [V("r")], True, [A.Return(A.Index(V("r"), I(0)))]), A.Declare(V(nv), A.call("rp%d_%d" % (k, n), prev))]
+            elif op == "concat":
+                stmts.append(A.Declare(V(nv), A.Index(A.Paren(A.Bin("+", A.lst(I(0)), A.lst(prev))), I(1))))
+            elif op == "slice_copy":
+                stmts.append(A.Declare(V(nv), A.Index(A.RangeIndex(A.lst(I(0), prev), I(1), None), I(0))))
+            elif op == "collect":
+                stmts += [A.Declare(A.ListE([(V("_"), False), (V(nv + "_r"), False)], True), A.lst(I(0), prev)), A.Declare(V(nv), A.Index(V(nv + "_r"), I(0)))]
             elif op == "list_destructure":
                 stmts.append(A.Declare(A.lst(V("_"), V(nv)), A.lst(I(0), prev)))
             elif op == "for_list":
@@ -221,13 +235,42 @@ def make_probe(desc, k):
                 A.Return(A.Call(A.Prop(V("this"), "down", False), [(A.Bin("-", V("n"), I(1)), False)]))])))),
                 P(A.Call(A.Prop(V(o), "down", False), [(I(4), False)]))]
             return {"stmts": stmts, "expect": ["R"], "tag": "special", "what": name}
+        if name.startswith("placeholder_params_"):
+            # `_` takes its argument like any parameter (and discards it): the parameters around it keep their own arguments
+            n = int(name.rsplit("_", 1)[1])
+            exp, stmts = [], []
+            j = 0
+            for mask in range(1, 1 << n):
+                if mask == (1 << n) - 1 and n > 1:
+                    continue
+                j += 1
+                names = ["_" if mask >> i & 1 else "p%d" % i for i in range(n)]
+                kept = [nm for nm in names if nm != "_"]
+                body = [A.Return(A.lst(*[V(nm) for nm in kept]))]
+                f = "ph%d_%d" % (k, j)
+                if j % 2:
+                    stmts.append(A.FuncStmt(f, [V(nm) for nm in names], False, body))
+                else:
+                    stmts.append(A.Declare(V(f), A.FuncE([V(nm) for nm in names], False, body)))
+                stmts.append(P(A.Bin("==", A.Call(V(f), [(I(10 + i), False) for i in range(n)]), A.lst(*[I(10 + i) for i in range(n) if names[i] != "_"]))))
+                exp.append("true")
+                stmts.append(P(A.Bin("==", A.Call(V(f), [(A.lst(*[I(20 + i) for i in range(n)]), True)]), A.lst(*[I(20 + i) for i in range(n) if names[i] != "_"]))))
+                exp.append("true")
+            # with a rest parameter after the placeholders, and a placeholder rest
+            stmts += [A.FuncStmt("phr%d" % k, [V("a"), V("_"), V("b"), V("r")], True, [A.Return(A.lst(V("a"), V("b"), V("r")))]),
+                      P(A.Bin("==", A.call("phr%d" % k, I(1), I(2), I(3), I(4), I(5)), A.lst(I(1), I(3), A.lst(I(4), I(5))))),
+                      A.FuncStmt("phd%d" % k, [V("a"), V("_")], True, [A.Return(V("a"))]), P(A.call("phd%d" % k, I(7), I(8), I(9))),
+                      A.FuncStmt("phm%d" % k, [V("_"), V("_"), V("z")], False, [A.Return(V("z"))]), P(A.call("phm%d" % k, I(1), I(2), I(3)))]
+            exp += ["true", "7", "3"]
+            return {"stmts": stmts, "expect": exp, "tag": "special", "what": name}
     raise ValueError(desc)
 
 
 FRESH = ["lone_rest_spread_is_fresh", "param_opassign_list", "rest_wraps_single_list", "assign_param", "destructure_assign_param", "mutate_list", "mutate_object", "same_arg_twice", "rest_is_fresh",
          "rest_fresh_per_call", "params_fresh_per_call", "arg_expr_once"]
 SPECIAL = ["nested_fn_sees_enclosing_this", "this_is_the_object_itself", "method_mutates_this", "same_fn_two_objects",
-           "this_outside_any_function", "callee_not_function", "recursion_keeps_this"]
+           "this_outside_any_function", "callee_not_function", "recursion_keeps_this",
+           "placeholder_params_1", "placeholder_params_2", "placeholder_params_3", "placeholder_params_4"]
 
 
 def shapes(nargs_max, rng, limit):
